@@ -1244,6 +1244,11 @@ func (r *Raft) appendConfigurationEntry(future *configurationChangeFuture) {
 	}
 
 	r.dispatchLogs([]*logFuture{&future.logFuture})
+	if r.getState() != Leader {
+		// dispatchLogs could not store the entry and stepped down. The
+		// configuration is not in the log, so it must not take effect.
+		return
+	}
 	index := future.Index()
 	r.setLatestConfiguration(configuration, index)
 	r.leaderState.commitment.setConfiguration(configuration)
